@@ -6,7 +6,7 @@ import os
 import pathlib
 from datetime import date
 from textwrap import indent
-from typing import Any, Dict, List
+from typing import Any, Dict, List, Set, Tuple
 from typing_extensions import Type
 
 import yaml
@@ -38,6 +38,8 @@ class Recognizer(IRecognizer):
         """
         self.__registered_classes = registered_classes
         self.__additional_classes = additional_classes
+        # (node id, type) pairs being recognized, to detect alias cycles
+        self.__in_progress = set()      # type: Set[Tuple[int, Any]]
 
     def __recognize_scalar(self, node: yaml.Node,
                            expected_type: Type) -> RecResult:
@@ -404,6 +406,23 @@ class Recognizer(IRecognizer):
 
         Returns:
             A list of matching types.
+        """
+        key = (id(node), expected_type)
+        if key in self.__in_progress:
+            raise RecognitionError(
+                    '{}\nThis node contains itself via an alias, which is not'
+                    ' supported.'.format(node.start_mark))
+        self.__in_progress.add(key)
+        try:
+            return self.__recognize_checked(node, expected_type)
+        finally:
+            self.__in_progress.discard(key)
+
+    def __recognize_checked(
+            self, node: yaml.Node, expected_type: Type) -> RecResult:
+        """Recognizes a node that is known not to contain itself.
+
+        See :meth:`recognize`.
         """
         logger.debug('Recognizing {} as a {}'.format(node, expected_type))
         recognized_types = None     # type: Any
